@@ -68,6 +68,7 @@ type e1Config struct {
 	deadline      [2]time.Duration
 	extraAssume   []string
 	deep          *deepPhase // optional second phase: reduced alphabet, deeper
+	noPrune       bool
 }
 
 // deepPhase is a second search with a reduced alphabet and a larger depth bound.
@@ -114,6 +115,7 @@ func configureE1(prop string, e *E1) error {
 	}
 	e.Alphabet = BuildAlphabet(names, multi, c.orphan)
 	e.Probes = c.probes
+	e.NoPrune = c.noPrune
 	e.Opts = WorldOpts{RenderAll: c.renderAll}
 	e.Depth = c.depth[0]
 	dl := c.deadline[0]
